@@ -96,6 +96,9 @@ def alpha(text):
     return re.sub(r"[A-Za-z_][A-Za-z0-9_]*", ren, text)
 
 
+_ADAPTED = {}
+
+
 def execute(spec):
     """run one call in this process -> outcome (JSON-able)"""
     import einx
@@ -106,7 +109,8 @@ def execute(spec):
         kw["graph"] = True
     if spec["fn"].startswith("adapt:"):
         # a numpy reduction adapted by einx (its generated code refers to the function as a constant)
-        fn = einx.numpy.adapt_numpylike_reduce(getattr(np, spec["fn"][6:]))
+        # one adapted function per numpy function and process, as a program would keep it
+        fn = _ADAPTED.get(spec["fn"]) or _ADAPTED.setdefault(spec["fn"], einx.numpy.adapt_numpylike_reduce(getattr(np, spec["fn"][6:])))
         kw.pop("backend", None)
     else:
         fn = getattr(einx, spec["fn"])
